@@ -15,6 +15,7 @@ import TbbVerif.Proofs.C12.CasListFacts
 import TbbVerif.Proofs.C12.Bits
 import TbbVerif.Proofs.C12.SplitOrderInv
 import TbbVerif.Proofs.C12.SkipListFacts
+import TbbVerif.Proofs.C12.Sizing
 import TbbVerif.Generated.C12
 
 namespace TbbVerif.C12
@@ -311,6 +312,131 @@ theorem splitorder_multi_contiguous (cfg : SplitOrder.Cfg) (bc : Nat) (progs : L
   subst hs
   exact (SplitOrder.sinv_reachable cfg bc progs hbc sched).contig a ha b hb hk hr z hz hbz
 
+/-! ### table sizing (`reserve` / `rehash` / `max_load_factor` / growth) -/
+
+/-- **The sizing computations of the header, as regenerated on this run**, are the ones the theorems below are
+about: `round_up_to_power_of_two` yields a power of two `≤ 2^63` for EVERY argument; the constructor and `rehash`
+install exactly that; `reserve` starts from the current count, only ever doubles it (`<<= 1`, mod 2^64) and installs
+the result; `adjust_table_size` installs twice the count it was called with.  (The float conditions that decide
+WHETHER to grow are also generated — `reserveCond`, `adjustCond`, `rehashCond`, `mlfReject` — but nothing below
+depends on their value, so the statements hold for every `max_load_factor`.) -/
+theorem generated_sizing :
+    (∀ x, ∃ k, k ≤ 63 ∧ Generated.C12.roundUp x = 2 ^ k) ∧
+    (∀ x, Generated.C12.ctorBc x = Generated.C12.roundUp x) ∧
+    (∀ cur n, Generated.C12.rehashNew cur n = Generated.C12.roundUp n) ∧
+    (∀ cur n mlf, Generated.C12.reserveInit cur n mlf = cur) ∧
+    (∀ cur nec n mlf, Generated.C12.reserveStep cur nec n mlf = (2 * nec) % 2 ^ 64) ∧
+    (∀ cur nec n mlf, Generated.C12.reserveDesired cur nec n mlf = nec) ∧
+    (∀ total cur mlf, Generated.C12.adjustNew total cur mlf = (2 * cur) % 2 ^ 64) :=
+  ⟨gen_roundUp_pow2, gen_ctorBc, gen_rehashNew, gen_reserveInit, gen_reserveStep, gen_reserveDesired, gen_adjustNew⟩
+
+/-- **The bucket count is always a power of two.**  For every constructor argument `n0`, every initial load factor and
+every sequence of `insert`s (any number of elements), `reserve(n)`, `rehash(n)` and `max_load_factor(f)` calls with
+ARBITRARY arguments (any `n`, any float `f` including 0, denormals and +inf; NaN and negative values are rejected by
+the setter and change nothing): whenever the calls return, `my_bucket_count` is `2^k` with `k ≤ 63` — or `0`, which
+arises only by doubling `2^63` out of the 64-bit word (`adjust_table_size` with a load factor so small that the table
+keeps doubling; `reserve` then never returns).  The constructor's count is a power of two, and a single insert
+either keeps the count or doubles it.  `bcok_of_isbc` is the link to the split-order theorems: every non-zero count
+satisfies their hypothesis `∃ k ≤ 63, bc = 2^k` — they are FALSE for other counts (the dummy key of bucket `h % bc`
+can then exceed the key of an element of that bucket). -/
+theorem bucket_count_power_of_two (n0 : Nat) (mlf0 : F32) (ops : List Sizing.Op) (s : Sizing.St)
+    (h : Sizing.run (Sizing.init n0 mlf0) ops = some s) :
+    (s.bc = 0 ∨ ∃ k, k ≤ 63 ∧ s.bc = 2 ^ k) ∧
+    (s.bc ≠ 0 → ∃ k, k ≤ 63 ∧ s.bc = 2 ^ k) ∧
+    (∃ k, k ≤ 63 ∧ (Sizing.init n0 mlf0).bc = 2 ^ k) ∧
+    ((Sizing.insertOne s).bc = s.bc ∨ (Sizing.insertOne s).bc = (2 * s.bc) % 2 ^ 64) := by
+  have hi := Sizing.run_isbc ops (isbc_of_bcok (Sizing.init_bcok n0 mlf0)) h
+  exact ⟨hi, bcok_of_isbc hi, Sizing.init_bcok n0 mlf0, Sizing.insertOne_bc s⟩
+
+/-- **The protocol functions the SplitOrder model transcribes have the statement skeletons it was written for**
+(regenerated from the header on every run; comments, assertions and white space removed).  In particular
+`insert_dummy_node`: `prev_node` is initialised with the parent's dummy node and advanced only inside the inner
+`while`, so after a failed `try_insert` the `do`-loop re-reads `prev_node->next()` of the LAST predecessor and walks
+forward again — the model's `dCas`-failure → `dSearch` transition with `prev` unchanged. -/
+theorem generated_protocol_skeletons :
+    Generated.C12.insertDummyNodeSkeleton =
+      ["(parent_dummy_node, order_key)", "node_ptr prev_node = parent_dummy_node",
+       "node_ptr dummy_node = create_dummy_node(order_key)", "node_ptr next_node", "do {",
+       "next_node = prev_node->next()", "while (next_node != nullptr && next_node->order_key() < order_key) {",
+       "prev_node = next_node", "next_node = next_node->next()", "}",
+       "if (next_node != nullptr && next_node->order_key() == order_key) {", "destroy_node(dummy_node)",
+       "return next_node", "}", "}", "while (!try_insert(prev_node, dummy_node, next_node))", "return dummy_node"] ∧
+    Generated.C12.tryInsertSkeleton =
+      ["(prev_node, new_node, current_next_node)", "new_node->set_next(current_next_node)",
+       "return prev_node->try_set_next(current_next_node, new_node)"] ∧
+    Generated.C12.searchAfterSkeleton =
+      ["(prev, order_key, key)", "node_ptr curr = prev->next()",
+       "while (curr != nullptr && (curr->order_key() < order_key || (curr->order_key() == order_key && !my_hash_compare(traits_type::get_key(static_cast<value_node_ptr>(curr)->value()), key)))) {",
+       "prev = curr", "curr = curr->next()", "}",
+       "if (curr != nullptr && curr->order_key() == order_key && !allow_multimapping) {", "return {",
+       "static_cast<value_node_ptr>(curr), true", "}", "}", "return {", "static_cast<value_node_ptr>(curr), false", "}"] ∧
+    Generated.C12.initBucketSkeleton =
+      ["(bucket)", "if (bucket == 0) {", "node_ptr disabled = nullptr",
+       "my_segments[0].compare_exchange_strong(disabled, &my_head)", "return", "}",
+       "size_type parent_bucket = get_parent(bucket)",
+       "while (my_segments[parent_bucket].load(std::memory_order_acquire) == nullptr) {", "init_bucket(parent_bucket)", "}",
+       "node_ptr parent = my_segments[parent_bucket].load(std::memory_order_acquire)",
+       "node_ptr dummy_node = insert_dummy_node(parent, split_order_key_dummy(bucket))",
+       "my_segments[bucket].store(dummy_node, std::memory_order_release)"] ∧
+    Generated.C12.getBucketSkeleton =
+      ["(bucket_index)", "if (my_segments[bucket_index].load(std::memory_order_acquire) == nullptr) {",
+       "init_bucket(bucket_index)", "}", "return my_segments[bucket_index].load(std::memory_order_acquire)"] ∧
+    Generated.C12.prepareBucketSkeleton =
+      ["(hash_key)", "size_type bucket = hash_key % my_bucket_count.load(std::memory_order_acquire)",
+       "return get_bucket(bucket)"] ∧
+    Generated.C12.internalInsertRetrySkeleton =
+      ["while (!try_insert(prev, new_node, curr)) {", "search_result = search_after(prev, order_key, key)",
+       "if (search_result.second) {", "return internal_insert_return_type {", "new_node, search_result.first, false",
+       "}", "}", "curr = search_result.first", "}"] :=
+  ⟨rfl, rfl, rfl, rfl, rfl, rfl, rfl⟩
+
+/-- **Nothing else writes `my_bucket_count`**: the constructor (rounded up), the three CAS sites modelled above, and
+copies of another container's count (copy / move construction and assignment, swap, the reset to
+`initial_bucket_count` of a moved-from container) — the complete list of initialisers / stores / RMWs in the header. -/
+theorem generated_bucket_count_writers :
+    Generated.C12.bucketCountWriters =
+      ["init: round_up_to_power_of_two(bucket_count)",
+       "init: other.my_bucket_count.load(std::memory_order_relaxed)",
+       "init: other.my_bucket_count.load(std::memory_order_relaxed)",
+       "init: other.my_bucket_count.load(std::memory_order_relaxed)",
+       "init: other.my_bucket_count.load(std::memory_order_relaxed)",
+       "store: other.my_bucket_count.load(std::memory_order_relaxed), std::memory_order_relaxed",
+       "store: other.my_bucket_count.load(std::memory_order_relaxed), std::memory_order_relaxed",
+       "compare_exchange_strong: current_bucket_count, round_up_to_power_of_two(bucket_count)",
+       "compare_exchange_strong: current_bucket_count, necessary_bucket_count",
+       "compare_exchange_strong: current_size, 2u * current_size",
+       "store: initial_bucket_count, std::memory_order_relaxed",
+       "store: other.my_bucket_count.load(std::memory_order_relaxed), std::memory_order_relaxed",
+       "store: bucket_count, std::memory_order_relaxed"] ∧
+    (∃ k, Generated.C12.initialBucketCount = 2 ^ k) := ⟨rfl, 3, rfl⟩
+
+/-- **A bucket's dummy node sits exactly where its order key dictates**, whatever happened while
+`insert_dummy_node` ran (any number of regular inserts linked between the parent's dummy node and the target
+position, any number of failed CAS / retries, other threads initialising the same bucket): in every reachable state,
+for every initialised bucket `b` with entry node `d`: `d` is in the list with key `dummyKey b`, every node behind `d`
+has an order key `≥ dummyKey b`, and every other node of the list that is NOT behind `d` has an order key `≤ dummyKey b`
+(so: strictly smaller, dummy keys being unique and regular keys odd).  Hence no element of a bucket can be in front
+of its bucket's entry, and none of a smaller-keyed bucket behind it. -/
+theorem splitorder_dummy_position (cfg : SplitOrder.Cfg) (bc : Nat) (progs : List (List SplitOrder.Op))
+    (hbc : ∃ k, k ≤ 63 ∧ bc = 2 ^ k) (sched : List Tid)
+    (s : SplitOrder.St) (hs : s = (SplitOrder.sys cfg bc progs).run sched) (b d : Nat) (hd : s.slot b = some d) :
+    d ∈ s.L.chain ∧ s.L.key d = ⟨dummyKey b, 0⟩ ∧
+    (∀ x ∈ aft d s.L.chain, dummyKey b ≤ (s.L.key x).ok) ∧
+    (∀ x ∈ s.L.chain, x ∉ aft d s.L.chain → (s.L.key x).ok ≤ dummyKey b) := by
+  subst hs
+  have hi := SplitOrder.sinv_reachable cfg bc progs hbc sched
+  obtain ⟨hdm, hdk⟩ := hi.table _ _ hd
+  refine ⟨hdm, hdk, ?_, ?_⟩
+  · intro x hx
+    have := pairwise_aft hi.good.sorted hdm hx
+    simpa [hdk] using this
+  · intro x hx hn
+    have hnlt : ¬ ((((SplitOrder.sys cfg bc progs).run sched).L.key d).ok <
+        (((SplitOrder.sys cfg bc progs).run sched).L.key x).ok) := fun hlt =>
+      hn (mem_aft_of_lt (f := fun a => (((SplitOrder.sys cfg bc progs).run sched).L.key a).ok) hi.good.sorted hdm hx hlt)
+    rw [hdk] at hnlt
+    simpa using Nat.le_of_not_lt hnlt
+
 /-! ### the skip list: the model the E-SHIM traces of the ordered containers are replayed on -/
 
 /-- **Levels.**  In every reachable state of the SkipList system (any number of threads, any schedule, any node
@@ -421,14 +547,43 @@ example : parentOf 6 = 2 ∧ parentOf 1 = 0 ∧ getParent 0 = none := by decide
 def soProgs : List (List SplitOrder.Op) := [[.ins 1 1, .ins 3 3], [.ins 1 1, .ins 2 2, .find 3 3]]
 def soSched : List Tid := (List.range 160).map (· % 2)
 set_option maxRecDepth 20000 in
-example : ((SplitOrder.sys { mlfNum := 1 } 2 soProgs).run soSched).bc = 4 := by decide
+example : ((SplitOrder.sys { mlf0 := F32.ofNat 1 } 2 soProgs).run soSched).bc = 4 := by decide
 set_option maxRecDepth 20000 in
-example : (((SplitOrder.sys { mlfNum := 1 } 2 soProgs).run soSched).L.chain.map
-    (fun n => (((SplitOrder.sys { mlfNum := 1 } 2 soProgs).run soSched).L.key n).uk)) = [0, 2, 0, 1, 0, 3] := by decide
+example : (((SplitOrder.sys { mlf0 := F32.ofNat 1 } 2 soProgs).run soSched).L.chain.map
+    (fun n => (((SplitOrder.sys { mlf0 := F32.ofNat 1 } 2 soProgs).run soSched).L.key n).uk)) = [0, 2, 0, 1, 0, 3] := by decide
 set_option maxRecDepth 20000 in
-example : (((SplitOrder.sys { mlfNum := 1 } 2 soProgs).run soSched).log.filter (isSucc ⟨regularKey 1, 1⟩)).length = 1 := by decide
+example : (((SplitOrder.sys { mlf0 := F32.ofNat 1 } 2 soProgs).run soSched).log.filter (isSucc ⟨regularKey 1, 1⟩)).length = 1 := by decide
 set_option maxRecDepth 20000 in
-example : ((SplitOrder.sys { mlfNum := 1 } 2 soProgs).run soSched).ths.all (fun th => th.ops.isEmpty) = true := by decide
+example : ((SplitOrder.sys { mlf0 := F32.ofNat 1 } 2 soProgs).run soSched).ths.all (fun th => th.ops.isEmpty) = true := by decide
+
+/-- bucket-initialisation race: thread 3 initialises bucket 2 (a lookup), thread 0 inserts hash 6 — the FIRST access to
+bucket 6, parent 2 — and is held between its search and its CAS on `dummy(2).next` while threads 1 and 2 link hashes 2
+and 10 directly behind `dummy(2)`; the CAS fails, the retry walks past BOTH new nodes -/
+def dmProgs : List (List SplitOrder.Op) := [[.ins 6 6, .find 10 10], [.ins 2 2], [.ins 10 10], [.find 2 2]]
+def dmSched : List Tid :=
+  List.replicate 13 3 ++ List.replicate 7 0 ++ List.replicate 9 1 ++ List.replicate 10 2 ++ List.replicate 19 0
+set_option maxRecDepth 20000 in
+example : (((SplitOrder.sys {} 8 dmProgs).run (List.replicate 13 3 ++ List.replicate 7 0)).ths[0]?.map (·.pc)) = some .dCas := by decide
+set_option maxRecDepth 20000 in
+example : (((SplitOrder.sys {} 8 dmProgs).run dmSched).L.chain.map
+    (fun n => (((SplitOrder.sys {} 8 dmProgs).run dmSched).L.key n))) =
+    [⟨0, 0⟩, ⟨dummyKey 2, 0⟩, ⟨regularKey 2, 2⟩, ⟨regularKey 10, 10⟩, ⟨dummyKey 6, 0⟩, ⟨regularKey 6, 6⟩] := by decide
+set_option maxRecDepth 20000 in
+example : (0, Res.find ⟨regularKey 10, 10⟩ true (some 4)) ∈ ((SplitOrder.sys {} 8 dmProgs).run dmSched).log := by decide
+
+/-- sizing: `max_load_factor(3.0f); reserve(1000)` on a default table gives 512 buckets (8·3 < 1000, …, 256·3 < 1000,
+512·3 ≥ 1000); `rehash(100)` gives 128; 33 inserts at load factor 4 double 8 → 16 -/
+example : (Sizing.run (Sizing.init 8 (F32.ofNat 4)) [.setMlf (F32.ofNat 3), .reserve 1000]).map (·.bc) = some 512 := by decide
+set_option maxRecDepth 20000 in
+example : (Sizing.run (Sizing.init 5 (F32.ofNat 4)) [.rehash 100]).map (·.bc) = some 128 := by decide
+set_option maxRecDepth 100000 in
+example : (Sizing.run (Sizing.init 8 (F32.ofNat 4)) [.ins 32]).map (·.bc) = some 8 ∧
+    (Sizing.run (Sizing.init 8 (F32.ofNat 4)) [.ins 33]).map (·.bc) = some 16 := by decide
+/-- concurrent `reserve(100)` (target 32 at load factor 4) and `rehash(64)` in the interleaving model, steps alternating:
+both load 8, reserve's CAS wins, rehash's single CAS fails and is not retried (the header's own TODO) -/
+def szProgs : List (List SplitOrder.Op) := [[.reserve 100, .ins 1 1], [.rehash 64, .ins 65 65, .find 1 1]]
+set_option maxRecDepth 20000 in
+example : ((SplitOrder.sys {} 8 szProgs).run ((List.range 120).map (· % 2))).bc = 32 := by decide
 
 /-- three threads insert 5 (height 2), 5 (height 1), 3 (height 3) and look 5 up, in a unique-key skip list -/
 def skProgs : List (List SkipList.Op) := [[.ins 5 2, .find 5], [.ins 5 1], [.ins 3 3, .trav]]
